@@ -1,14 +1,11 @@
 #!/bin/bash
-# run every stored seeded change against the check of its property; write seeded/RESULTS.json
+# run every stored seeded change against the check of its property (scratch worktrees, several at once; /repo is not
+# touched); write seeded/RESULTS.json.   usage: seeded_matrix.sh [parallelism]
 cd /verif
 out=/verif/work/seeded_matrix.txt; : > $out
-for d in seeded/*/; do
-  name=$(basename $d); prop=${name%_*}
-  [ -f $d/patch.diff ] || continue
-  res=$(tools/mutant_test.sh $prop /verif/$d/patch.diff 2>&1 | grep -E "tier=|VIOLATION|PATCH DOES NOT" | tr '\n' ' ')
-  echo "$name | $res" >> $out
-done
-git -C /repo status --short | grep -v "^??" >> $out
+ls -d seeded/*/ | while read d; do name=$(basename $d); [ -f $d/patch.diff ] && echo $name; done | \
+  xargs -P ${1:-6} -I{} bash -c 'n={}; p=${n%_*}; r=$(tools/ptest.sh $p /verif/seeded/$n/patch.diff m_$n 2>&1 | grep -E "tier=|VIOLATION|PATCH DOES NOT" | sed "s#/tmp/pt_work_m_$n#work#" | tr "\n" " "); echo "$n | $r" >> /verif/work/seeded_matrix.txt'
+sort -o $out $out
 python3 - <<'PY'
 import json,re
 rows=[]
@@ -20,6 +17,8 @@ for l in open('/verif/work/seeded_matrix.txt'):
     rows.append({"seeded":name,"property":name.split('_')[0],"check":"./check %s --tier quick"%name.split('_')[0],
       "detected":"VIOLATION" in res,"concrete_failing_input":"VIOLATION" in res and "no-failing-input-found" not in res,
       "correspondence_disagreements":int(m.group(1)) if m else None,"property_failures_on_implementation":int(m.group(2)) if m else None})
-json.dump({"comment":"every stored seeded change applied to /repo (git apply), the quick check of its property run, the change removed (git apply -R); produced by tools/seeded_matrix.sh","results":rows},open('/verif/seeded/RESULTS.json','w'),indent=1)
+json.dump({"comment":"every stored seeded change applied to a scratch worktree of /repo's HEAD (git apply), the quick check of its property run against it (tools/ptest.sh: scratch mode of ./check), the worktree removed; produced by tools/seeded_matrix.sh","results":rows},open('/verif/seeded/RESULTS.json','w'),indent=1)
 print(sum(r['detected'] for r in rows),'of',len(rows),'detected;',sum(r['concrete_failing_input'] for r in rows),'with a concrete failing input')
+for r in rows:
+    if not r['concrete_failing_input']: print('  NOT:',r['seeded'],r)
 PY
